@@ -195,3 +195,27 @@ Definition get_referent (c : rc) (s : nat) : result (option nat * rc) :=
           end
       end
   end.
+
+(* ---- get_references(block) abandoned by its caller ----
+   get_references is a generator: any(...) / all(...) over it (remove.py, join.py) stop at the first decisive symbol and the
+   generator is closed where it stands.  What has happened by then: every symbol that was yielded is a direct reference (the
+   indirect ones were taken out of their node, out of _referents, and assigned), nothing else was touched, and the entry of the
+   block stays in _references.  Which symbols come first depends on set iteration order, so the model takes the yielded symbols
+   as an argument (any list of references of the block, in any order); None = the list names something that is not a reference
+   of the block (the generator cannot have yielded it). *)
+Definition yield_one (b : nat) (oc : option rc) (s : nat) : option rc :=
+  match oc with
+  | None => None
+  | Some c =>
+      match forest_find s (refs c) with
+      | Some (b', side) => if Nat.eqb b' b then Some (set_referent c s (Some b) side) else None
+      | None =>
+          match fst (sym_get s (stab c)) with
+          | Some b' => if Nat.eqb b' b then Some c else None
+          | None => None
+          end
+      end
+  end.
+
+Definition get_references_abandoned (c : rc) (b : nat) (yielded : list nat) : option rc :=
+  fold_left (yield_one b) yielded (Some c).
